@@ -1288,13 +1288,15 @@ Proof. destruct a_argmin, ka as [|[|]|], kb as [|[|]|], rt; vm_compute; reflexiv
 (* matmul's case chain (generated): which strategy for which dimensionalities *)
 Theorem matmul_route_spec_proof (a_ndim b_ndim a_lead b_lead : Z) :
   matmul_route a_ndim b_ndim a_lead b_lead
-  = Some (if b_ndim <=? 2 then MmDot
-          else if a_ndim <=? 2 then MmDotMoveAxis
-          else if (a_ndim <=? b_ndim) && (a_lead =? 1) then MmSqueezeA
-          else if (b_ndim <=? a_ndim) && (b_lead =? 1) then MmSqueezeB
-          else MmBatch).
+  = if (a_ndim =? 0) || (b_ndim =? 0) then None       (* ValueError: 0-d operands are rejected, like np.matmul *)
+    else Some (if b_ndim <=? 2 then MmDot
+               else if a_ndim <=? 2 then MmDotMoveAxis
+               else if (a_ndim <=? b_ndim) && (a_lead =? 1) then MmSqueezeA
+               else if (b_ndim <=? a_ndim) && (b_lead =? 1) then MmSqueezeB
+               else MmBatch).
 Proof.
   unfold matmul_route, s_matmul_case. cbn.
+  destruct (Z.eqb_spec a_ndim 0); cbn; [reflexivity|]. destruct (Z.eqb_spec b_ndim 0); cbn; [reflexivity|].
   destruct (Z.leb_spec b_ndim 2); cbn; [reflexivity|].
   destruct (Z.leb_spec a_ndim 2); cbn; [reflexivity|].
   destruct (Z.leb_spec a_ndim b_ndim); cbn.
